@@ -23,6 +23,7 @@ func init() {
 			{"C20.write-format", "the local store writes and reads through its own converters and names", 3, c20WriteFormat},
 			{"C20.filters", "verify/prune extension filters follow the option", 10, c16FormatFilter},
 			{"C20.prune-own-format", "prune removes objects named from the parsed id (the store's own format), only on a keep-set miss", 4, c16KeepSet},
+			{"C20.raw-storage", "a chunk's stored bytes are passed on unconverted only where the converters match", 1, func(c *Ctx) { c.rawStorageGuarded() }},
 			{"C20.compress-api", "Compress/Decompress present with the expected signatures", 2, c20CompressAPI},
 		},
 	})
